@@ -435,6 +435,22 @@ class Interp:
             if isinstance(recv, Opaque) or isinstance(b, Opaque):
                 raise Undecided("eq on opaque")
             return (recv == b) == (m == "eq")
+        if isinstance(recv, int) and not isinstance(recv, bool) and len(n["args"]) == 1 and m.startswith(("checked_", "saturating_", "wrapping_")):
+            a = self.ev(n["args"][0], env)
+            if isinstance(a, int) and not isinstance(a, bool):
+                import math
+                opn = m.split("_", 1)[1]
+                try:
+                    val = {"add": lambda: recv + a, "sub": lambda: recv - a, "mul": lambda: recv * a, "div": lambda: int(recv / a),
+                           "rem": lambda: int(math.fmod(recv, a))}[opn]()
+                except (KeyError, ZeroDivisionError, ValueError):
+                    val = None
+                if m.startswith("checked_"):
+                    return NONE if val is None else some(val)
+                if val is not None:
+                    if m.startswith("saturating_") and str(n.get("ty", "")).startswith("u"):
+                        val = max(val, 0)
+                    return val
         if isinstance(recv, set) and len(n["args"]) == 1 and m in ("contains", "insert", "remove"):
             a = self.ev(n["args"][0], env)
             if isinstance(a, (int, str, tuple)):
